@@ -369,6 +369,13 @@ def plkIdentity (n : Nat) (g : α) (cv scv : List α) (β γ αc ν : α) : Bool
 def plkVerify (n : Nat) (g : α) (cv scv : List α) (β γ αc ν : α) (kzgBatch kzgShift : Bool) : Bool :=
   kzgBatch && kzgShift && genCheck F n g && plkIdentity F n g cv scv β γ αc ν
 
+/-- every looked-up value is in the table -/
+def isSubset (f t : List α) : Bool := f.all (fun x => t.any (fun y => F.beq x y))
+
+/-- the specification's verdict on a plookup vector proof whose components are all consistent with `(n, g)` -/
+def plkSpec (n : Nat) (g : α) (f t : List α) : Bool :=
+  decide (2 ≤ n) && isPow2 n && isPrimRoot F n g && isSubset F f t
+
 /-- `VerifyLookupTables` as the property demands: the folded `f` commitment, the permutation proof, the BINDING of the
 permutation proof to (folded `ts`, `foldedProof.t`), the vector proof. The Go code computes the folded `ts` commitment and
 never uses it: the binding check is absent (finding). -/
@@ -808,6 +815,15 @@ def handlePlookup (r : Nat) (a : List String) : String :=
     boolStr (plkTableVerify (kv a "cf" == "1") (kv a "perm" == "1") (kv a "bind" == "1") (kv a "vec" == "1"))
   else if kv a "proved" != "1" then "err" else
   let ch (k : String) := parseHexD (kv a k) % r
+  if kv a "mut" == "consist" then
+    -- CONSISTENT forgery for the prover-supplied (size, g) = (fm, fg): see handlePermutation
+    let n := parseHexD (kv a "size")
+    let g := ch "g"
+    if n ≠ parseHexD (kv a "fm") ∨ g ≠ ch "fg" ∨ (kv a "pw2" == "1") ≠ isPow2 n then "bad-op" else
+    if !(plkIdentity F n g ((parseL (kv a "cv")).map (· % r)) ((parseL (kv a "scv")).map (· % r)) (ch "beta") (ch "gamma")
+          (ch "alpha") (ch "nu") && kv a "kb" == "1" && kv a "ks" == "1") then "bad-forge" else
+    boolStr (plkSpec F n g ((parseL (kv a "f")).map (· % r)) ((parseL (kv a "t")).map (· % r)))
+  else
   boolStr (plkVerify F (parseHexD (kv a "size")) (ch "g") ((parseL (kv a "cv")).map (· % r))
     ((parseL (kv a "scv")).map (· % r)) (ch "beta") (ch "gamma") (ch "alpha") (ch "nu") (kv a "kb" == "1") (kv a "ks" == "1"))
 
